@@ -56,6 +56,10 @@ pub enum Op {
     Retract(usize, Option<u32>),
     /// `supersede <old> <new> <t|->`: SUPERSEDE old BY new at instant t
     Supersede(usize, usize, Option<u32>),
+    /// `spell <k>`: how the KML route writes the evaluation instant in `FOR TIME` (model: no effect)
+    Spell(u32),
+    /// `norm <text>`: `time::normalize` on a timestamp text
+    Norm(String),
     Project(usize),
     SlotProject,
     Bad(String),
@@ -125,6 +129,8 @@ impl Op {
             ["status", i, s] => Some(Op::Status(i.parse().ok()?, one_char(s, "arsex")?)),
             ["retract", i, t] => Some(Op::Retract(i.parse().ok()?, opt(t)?)),
             ["supersede", i, j, t] => Some(Op::Supersede(i.parse().ok()?, j.parse().ok()?, opt(t)?)),
+            ["spell", k] => Some(Op::Spell(k.parse().ok()?)),
+            ["norm", text] => Some(Op::Norm(text.to_string())),
             ["project", t] => Some(Op::Project(t.parse().ok()?)),
             ["slotproject"] => Some(Op::SlotProject),
             _ => None,
@@ -145,6 +151,8 @@ impl Op {
             Op::Status(i, s) => format!("status {i} {s}"),
             Op::Retract(i, t) => format!("retract {i} {}", show_opt(*t)),
             Op::Supersede(i, j, t) => format!("supersede {i} {j} {}", show_opt(*t)),
+            Op::Spell(k) => format!("spell {k}"),
+            Op::Norm(t) => format!("norm {t}"),
             Op::Project(t) => format!("project {t}"),
             Op::SlotProject => "slotproject".into(),
             Op::Bad(l) => l.clone(),
@@ -155,7 +163,7 @@ impl Op {
         match self {
             Op::Reset => "reset", Op::Route(_) => "route", Op::Policy(_) => "policy", Op::Settings { .. } => "settings",
             Op::Now(_) => "now", Op::Slot { .. } => "slot", Op::A(_) => "a", Op::Raise(..) => "raise", Op::Status(..) => "status", Op::Retract(..) => "retract", Op::Supersede(..) => "supersede",
-            Op::Project(_) => "project", Op::SlotProject => "slotproject", Op::Bad(_) => "bad",
+            Op::Spell(_) => "spell", Op::Norm(_) => "norm", Op::Project(_) => "project", Op::SlotProject => "slotproject", Op::Bad(_) => "bad",
         }
     }
 }
@@ -506,5 +514,48 @@ pub fn random_kml_case(rng: &mut Rng) -> Vec<String> {
         }
     }
     if rng.chance(1, 4) { lines.push("slotproject".into()) } else { lines.push("project 0".into()) }
+    lines
+}
+
+/// Number of spellings of one instant the KML route knows (see `world::spell_instant`).
+pub const SPELLINGS: u32 = 12;
+
+/// A history for the route `kml-spell`: validity windows with sub-second edges (the clock ticks in
+/// 250 ms), the evaluation instant just inside / exactly on / just outside an edge, and `FOR TIME`
+/// written in one of the equivalent spellings of that instant (offsets crossing the day, 0/1/3/6/9
+/// fractional digits, `+00:00`, lowercase). The harness re-runs the history under every spelling.
+pub fn random_kml_spell_case(rng: &mut Rng) -> Vec<String> {
+    let mut lines = vec!["route kml-spell".to_string()];
+    let mut pol = PolicySpec::baseline();
+    pol.den = 100; pol.accept = 70; pol.material = 30; pol.unstated = 50;
+    lines.push(Op::Settings { k: 10, name: "-".into(), accept: "-".into(), material: "-".into(), modes: "-".into() }.render());
+    let nprops = *rng.pick(&[1usize, 1, 2]);
+    let functional = nprops > 1 && rng.chance(3, 4);
+    lines.push(Op::Slot { functional, props: (0..nprops).collect() }.render());
+    // edges: ticks 4..36 (1 tick = 250 ms, so 3 of 4 edges are sub-second)
+    let n = rng.usize(4) + 1;
+    let mut edges = Vec::new();
+    for _ in 0..n {
+        let mut r = random_row(rng, nprops, &pol, 3, 3, true);
+        r.conf = r.conf.clamp(-1, 100);
+        r.evs.sort(); r.evs.dedup();
+        if r.actor.is_none() { r.actor = Some(0) }
+        let a = 4 + rng.below(30) as u32;
+        match rng.below(4) {
+            0 => { r.from = Some(a); edges.push(a) }
+            1 => { r.until = Some(a); edges.push(a) }
+            _ => { let b = a + 1 + rng.below(6) as u32; r.from = Some(a); r.until = Some(b); edges.push(a); edges.push(b) }
+        }
+        lines.push(Op::A(r).render());
+    }
+    lines.push(Op::Spell(rng.below(SPELLINGS as u64) as u32).render());
+    // just before, exactly on, just after one edge (and sometimes a second one)
+    for _ in 0..rng.range(1, 2) {
+        let e = *rng.pick(&edges);
+        for t in [e - 1, e, e + 1] {
+            lines.push(format!("now {t}"));
+            if rng.chance(1, 5) { lines.push("slotproject".into()) } else { lines.push(format!("project {}", rng.usize(nprops))) }
+        }
+    }
     lines
 }
